@@ -278,14 +278,19 @@ def sym_indexer(vc):
     spec = SpecModule(SPEC)
     # count: "count the number of occurrences of a specific key ... In case [name] is specified, count will count the number of
     # non-null values for that source field" (PROCESSORS.md): 'count' names the source field, 'count-rows' gives no name
-    for agg in ('sum', 'count', 'count-rows', 'first', 'array', 'avg'):
+    for agg in ('sum', 'count', 'count-rows', 'count-same-name', 'first', 'array', 'avg'):
         for mode in ('half-outer', 'full-outer'):
             for which in (0, 1, 2):          # key absent | key present, field state empty (None) | field has a state
                 def thunk(it, agg=agg, mode=mode, which=which):
                     unnamed = agg == 'count-rows'
-                    agg = 'count' if unnamed else agg
+                    # a count that NAMES its source field counts that field's non-null values -- also when the source field has the
+                    # same name as the target field ({'x': {'name': 'x', 'aggregate': 'count'}}, the spelling the README uses)
+                    same_name = agg == 'count-same-name'
+                    sfn = 'x' if same_name else 'v'
+                    agg = 'count' if (unnamed or same_name) else agg
                     from pyvc.api import PyDict as _PD
-                    func, usage, db = mk_join(it, mode=mode, agg=agg, fields=_PD({'x': _PD({'aggregate': 'count'})}) if unnamed else None)
+                    func, usage, db = mk_join(it, mode=mode, agg=agg, fields=_PD({'x': _PD({'aggregate': 'count'})}) if unnamed else (
+                        _PD({'x': _PD({'name': 'x', 'aggregate': 'count'})}) if same_name else None))
                     indexer = func.env.lookup('indexer')
                     sp = spec.bind(it)
                     states = agg_states(it, agg)
@@ -304,7 +309,7 @@ def sym_indexer(vc):
                             return cur_dict
                     db.attrs['call:get'] = get
                     r = mk_resource(it, 'source')
-                    tag = '[%s,%s,%d]' % ('count-rows' if unnamed else agg, mode, which)
+                    tag = '[%s,%s,%d]' % ('count-rows' if unnamed else ('count-same-name' if same_name else agg), mode, which)
 
                     def at_start(it, env, elem):
                         n, row = elem
@@ -327,7 +332,7 @@ def sym_indexer(vc):
                             check(it, 'usage-flag-reset-for-this-key' + tag, st[1].objs[1] is False and
                                   _b(term(st[1].objs[0], StrS) == term(key, StrS)))
                             cur2 = st[0].objs[1]
-                            v = it.uncell(z3.If(snap.dom[z3.StringVal('v')], snap.val[z3.StringVal('v')], Cell.none))
+                            v = it.uncell(z3.If(snap.dom[z3.StringVal(sfn)], snap.val[z3.StringVal(sfn)], Cell.none))
                             isnull = Cell.is_none(it.cell_of(v))
                             got_state = cur2.d.get('x')
                             if unnamed:
